@@ -859,12 +859,18 @@ fn gen_script(rng: &mut Rng) -> Value {
     let mut quiet = true; // nothing can be outstanding: every request so far was followed by enough polls
     let mut since = 0usize; // polls since the last request
     let mut owed = 0usize; // upper bound on the events still to come
+    let mut wake_total = 0u64; // wake requests of the whole script
     for _ in 0..n {
         match rng.below(100) {
             0..=17 => {
                 // at most 1024 bytes are read from the waker socket at once: bursts up to that size coalesce into one event
-                let top = if rng.chance(1, 5) { 400 } else { 5 };
-                acts.push(json!(["wake", 1 + rng.below(top)]));
+                // ... as long as all requests of a script together stay under 1024: how many one-byte writes the
+                // socket holds depends on the kernel's accounting (a few hundred here), so with more than one read's
+                // worth outstanding the number of Wake events is not determined
+                let top = if rng.chance(1, 5) && wake_total < 500 { 400 } else { 5 };
+                let n = 1 + rng.below(top);
+                wake_total += n;
+                acts.push(json!(["wake", n]));
                 fresh = true;
                 fresh_wake = true;
                 owed += 1;
